@@ -100,6 +100,7 @@ type Sim struct {
 	fakeElapsed  time.Duration
 	nextBcast    int
 	driverActive bool
+	tearingDown  bool
 	// KeyAlias shortens scheduling-point keys (e.g. peer ids -> party names).
 	KeyAlias   func(string) string
 	buggify    func(site string) bool
@@ -135,7 +136,11 @@ func (s *Sim) Logf(format string, a ...any) {
 	s.mu.Lock()
 	txt := fmt.Sprintf(format, a...)
 	s.log = append(s.log, Event{Step: s.Step, Text: txt})
-	s.traceHash = s.traceHash*1099511628211 ^ HashStr(txt)
+	if !s.tearingDown {
+		// events of the teardown (order in which cancelled goroutines unwind) are logged but
+		// not part of the trace identity: verdicts are final before teardown starts
+		s.traceHash = s.traceHash*1099511628211 ^ HashStr(txt)
+	}
 	s.mu.Unlock()
 }
 
@@ -348,6 +353,7 @@ func (s *Sim) runBody() {
 	if !s.Failed() {
 		s.stabilise()
 	}
+	s.tearingDown = true
 	s.ReleaseAllParked()
 	s.World.Teardown(s)
 	s.ReleaseAllParked()
